@@ -405,6 +405,87 @@ for _kind in ("fs", "cfs", "pkg"):
             _nm, _f = _mk_real(_kind, _p, _a, True)
             globals()[_nm] = _f
             CONDITIONS.append({"fn": _nm, "quick": None, "thorough": 500, "sel_only": True})
+# ---- a directory that changes between two requests to the same loader: every request is judged against the files as
+# they are when it is made (nothing remembered from an earlier request may be served or followed) ------------------------
+_MUT_N = [0]
+
+
+def mutation_case(kind, mut, reject, a1, a2, via_env):
+    _MUT_N[0] += 1
+    base = os.path.join(ROOT, "mut%d" % _MUT_N[0])
+    search = os.path.join(base, "search")
+    os.makedirs(search)
+    os.makedirs(os.path.join(base, "outside"))
+    with open(os.path.join(base, "outside", "decoy.liquid"), "w") as fd:
+        fd.write("OUTSIDE decoy")
+    with open(os.path.join(search, "other.liquid"), "w") as fd:
+        fd.write("INSIDE other")
+    target = os.path.join(search, "t.liquid")
+    with open(target, "w") as fd:
+        fd.write("INSIDE t")
+    cls = FileSystemLoader if kind == 0 else CachingFileSystemLoader
+    loader = cls(search, reject_symlinks=reject)
+    env = Environment(loader=loader)
+    saved = (FS.asyncio, PK.asyncio)
+    FS.asyncio = _Asyncio()
+    PK.asyncio = _Asyncio()
+
+    def request(use_async):
+        """('notfound',) / ('text', text) / ('error', class name)"""
+        try:
+            if via_env:
+                t = drive(env.get_template_async("t.liquid")) if use_async else env.get_template("t.liquid")
+                return ("text", t.render())
+            src = drive(loader.get_source_async(env, "t.liquid")) if use_async else loader.get_source(env, "t.liquid")
+            return ("text", src.text)
+        except TemplateNotFoundError:
+            return ("notfound",)
+        except Exception as e:
+            return ("error", type(e).__name__)
+    try:
+        first = request(a1)
+        os.remove(target)
+        want = ("notfound",)
+        if mut == 1:
+            os.symlink(os.path.join(base, "outside", "decoy.liquid"), target)
+            want = ("notfound",) if reject else ("text", "OUTSIDE decoy")
+        elif mut == 2:
+            os.makedirs(target)
+        elif mut == 3:
+            with open(target, "w") as fd:
+                fd.write("INSIDE t, edited")
+            os.utime(target, (2000000000, 2000000000))
+            want = ("text", "INSIDE t, edited")
+        elif mut == 4:
+            os.symlink("other.liquid", target)
+            want = ("text", "INSIDE other")
+        second = request(a2)
+    finally:
+        FS.asyncio, PK.asyncio = saved
+        shutil.rmtree(base, True)
+    return first, second, want
+
+
+def c22_directory_changes(kind: int, mut: int, reject: bool, a1: bool, a2: bool, via_env: bool) -> bool:
+    """
+    pre: 0 <= kind <= 1 and 0 <= mut <= 4
+    post: _
+    """
+    # kind: plain / caching file-system loader; mut: the template file is deleted / replaced by a symlink leading out of the
+    # search path / by a directory / edited / replaced by a symlink to another file inside
+    if excluded("c22_directory_changes", locals()):
+        return True
+    kind, mut = cint(kind, 0, 1), cint(mut, 0, 4)
+    reject, a1, a2, via_env = cbool(reject), cbool(a1), cbool(a2), cbool(via_env)
+    first, second, want = untraced(lambda: mutation_case(kind, mut, reject, a1, a2, via_env))
+    return finish(first == ("text", "INSIDE t") and second == want)
+
+
+DETAIL = globals().get("DETAIL", {})
+DETAIL["c22_directory_changes"] = lambda kind, mut, reject, a1, a2, via_env: dict(zip(("first request", "second request", "expected second"),
+                                                                                   mutation_case(kind, mut, reject, a1, a2, via_env)))
+CONDITIONS.append({"fn": "c22_directory_changes", "quick": 60, "thorough": 120, "sel_only": True})
+
 ASSUMPTIONS = [
     "c22_logic_*: pathlib.Path inside the two loader modules is replaced by SymPath (answers from symbolic flags, consistent under with_suffix/joinpath/resolve); impossible flag combinations (suffix without name, file that does not exist) are excluded by precondition; trusted contract: a relative path without '..' parts joined to base is lexically inside base",
     "c22_real_*: names = prefix x fragment [x '/' fragment] x suffix from selector pools (7 x 15 x 16 x 5); the sandbox tree under /verif/.work has decoys outside, a file symlink and a directory symlink leading out; asyncio's executor is replaced by an inline loop",
